@@ -22,7 +22,9 @@ use query_engine::{ExecutionContext, ParquetTable};
 use serde_json::{json, Value};
 use std::sync::Arc;
 
-fn col(i: usize, name: &str) -> Expr { Expr::Col { i, sql: format!("t0.{}", name) } }
+thread_local! { static QUALIFY: std::cell::Cell<bool> = std::cell::Cell::new(false); }
+/// column reference; spelled `t0.x0` only when the case asks for qualified names (that spelling trips C21-F10 over Parquet)
+fn col(i: usize, name: &str) -> Expr { Expr::Col { i, sql: if QUALIFY.with(|q| q.get()) { format!("t0.{}", name) } else { name.to_string() } } }
 
 /// operator names of the physical plan, pre-order (empty on any failure; never panics)
 pub fn plan_ops(cat: &Catalog, sql: &str, cfg: &ExecCfg) -> Vec<String> {
@@ -166,7 +168,7 @@ fn sub_path(top: &str, t: &TableSpec, sh: &Shape, cfg: &ExecCfg, nrows_after_whe
         let kty = t.cols[1].cty;
         let dense_fns = sh.aggs.iter().all(|(f, d)| !*d && matches!(f, AggFn::CountStar | AggFn::Count | AggFn::Sum | AggFn::Avg))
             && sh.aggs.iter().all(|(f, _)| match f { AggFn::Sum => matches!(t.cols[3].cty, ColTy::I64 | ColTy::F64), AggFn::Avg => t.cols[3].cty == ColTy::F64, _ => true });
-        if sh.nkeys == 1 && matches!(kty, ColTy::I64 | ColTy::I32 | ColTy::Date) && dense_fns && !sh.aggs.is_empty() { return "raw".into(); }
+        if sh.nkeys == 1 && !sh.distinct_select && matches!(kty, ColTy::I64 | ColTy::I32 | ColTy::Date) && dense_fns { return "raw".into(); }
         return "morsel".into();
     }
     if top.contains("HashAggregate") || top.contains("Spillable") {
@@ -185,10 +187,17 @@ fn gen_case(r: &mut Rng, n: usize, o: &Opts) -> (Value, Value) {
     let sizes: Vec<String> = o.get("sizes").unwrap_or("tiny,small,small,small,mid").split(',').map(|s| s.to_string()).collect();
     let cfg_names: Vec<&str> = o.get("cfgs").unwrap_or("mem1,memb,memb,pq1x16,pq2x7,pq3x50,memb+lim200000").split(',').collect();
     let (t, desc) = gen_table(r, &sizes);
-    let cfg = ExecCfg::parse(cfg_names[n % cfg_names.len()]).unwrap_or_else(ExecCfg::mem_batches);
     let allow_distinct = o.get_usize("distinct", 1) == 1;
     let sh = gen_shape(r, t.cols[3].cty, allow_distinct);
+    // GROUP BY two keys over Parquet: the optimizer's GroupKeyReduction (unique key inferred from an ndv estimate) is C03's
+    // finding, not an aggregation-path defect — take that rule out
+    let mut cfg_name = cfg_names[n % cfg_names.len()].to_string();
+    if cfg_name.starts_with("pq") && sh.nkeys >= 2 { cfg_name += "+without:GroupKeyReduction"; }
+    let cfg = ExecCfg::parse(&cfg_name).unwrap_or_else(ExecCfg::mem_batches);
+    let qualified = r.chance(1, 6);
+    QUALIFY.with(|q| q.set(qualified));
     let q = build_query(&t, &sh);
+    QUALIFY.with(|q| q.set(false));
     let cat = Catalog { tables: vec![t] };
     let t = &cat.tables[0];
     let sql = q.sql();
@@ -204,6 +213,7 @@ fn gen_case(r: &mut Rng, n: usize, o: &Opts) -> (Value, Value) {
     for (f, d) in &sh.aggs { tags.push(format!("agg:{}{}:{}", f.json(), if *d { "_distinct" } else { "" }, t.cols[3].cty.name())); }
     for w in desc.split(' ') { tags.push(w.to_string()); }
     if t.rows.is_empty() { tags.push("empty_table".into()); }
+    if qualified { tags.push("f:qualified".into()); }
     let mut case = make_case("C21", &cat, &q, &tags, false, &[cfg], false);
     case["c21"] = json!({"path": path, "op": top, "ops": ops, "nkeys": sh.nkeys, "xty": t.cols[3].cty.name()});
     // neutraliser of the NULL-grouping-key findings: the same statement over the table with every NULL key replaced by a
@@ -235,11 +245,63 @@ fn run_both(case: &Value) -> Value {
     imp
 }
 
+/// hand-made minimal cases, one per listed finding (`--opt witness=1`): the corpus / known-finding witnesses are made from these
+fn witness_cases() -> Vec<(Value, Value)> {
+    let mk = |n: &str, cty, null_pct| ColSpec { name: n.into(), cty, null_pct, boundary: false, special: false, unique: n == "id0" };
+    let table = |kty: ColTy, jty: ColTy, xty: ColTy, rows: Vec<Vec<Val>>, cuts: Vec<usize>| TableSpec {
+        name: "t0".into(), cols: vec![mk("id0", ColTy::I64, 0), mk("k0", kty, 50), mk("j0", jty, 50), mk("x0", xty, 50), mk("y0", ColTy::I64, 0)], rows, cuts };
+    let i = |v: i64| Val::I(v); let nl = || Val::Null;
+    let sh = |nkeys: usize, aggs: Vec<(AggFn, bool)>, distinct_select: bool, where_kind: &'static str| Shape { nkeys, aggs, distinct_select, where_kind };
+    let mut out = vec![];
+    let mut push = |id: &str, t: TableSpec, s: Shape, cfg: &str| {
+        QUALIFY.with(|q| q.set(id == "C21-F10"));
+        let q = build_query(&t, &s);
+        QUALIFY.with(|q| q.set(false));
+        let cat = Catalog { tables: vec![t] };
+        let cfg = ExecCfg::parse(cfg).unwrap();
+        let sql = q.sql();
+        let ops = plan_ops(&cat, &sql, &cfg);
+        let top = ops.iter().find(|n| n.contains("Aggregate") || n.contains("Distinct")).cloned().unwrap_or_else(|| "none".into());
+        let path = sub_path(&top, &cat.tables[0], &s, &cfg, false);
+        let tags = vec![format!("witness:{}", id), format!("path:{}", path)];
+        let mut case = make_case("C21", &cat, &q, &tags, false, &[cfg], false);
+        let t = &cat.tables[0];
+        let has_null_key = s.nkeys > 0 && t.rows.iter().any(|r| r[1].is_null() || (s.nkeys > 1 && r[2].is_null()));
+        case["c21"] = json!({"path": path, "op": top, "ops": ops, "nkeys": s.nkeys, "xty": t.cols[3].cty.name(), "neutral": has_null_key, "witness": id});
+        let imp = run_both(&case);
+        out.push((case, imp));
+    };
+    // F1  SUM(DISTINCT x) over no non-NULL value is 0
+    push("C21-F1", table(ColTy::I64, ColTy::I64, ColTy::I64, vec![vec![i(0), i(1), i(1), nl(), i(1)], vec![i(1), i(1), i(1), nl(), i(1)]], vec![2]), sh(0, vec![(AggFn::Sum, true)], false, "none"), "mem1");
+    // F2  DISTINCT: every NULL row is its own group
+    push("C21-F2", table(ColTy::I64, ColTy::I64, ColTy::I64, vec![vec![i(0), nl(), i(1), i(1), i(1)], vec![i(1), i(5), i(1), i(1), i(1)], vec![i(2), nl(), i(1), i(1), i(1)]], vec![3]), sh(1, vec![], true, "none"), "mem1");
+    // F3  NULL-key group dropped when its accumulators stayed empty
+    push("C21-F3", table(ColTy::I64, ColTy::I64, ColTy::I64, vec![vec![i(0), nl(), i(1), nl(), i(1)], vec![i(1), i(5), i(1), i(3), i(1)], vec![i(2), nl(), i(1), nl(), i(1)]], vec![3]), sh(1, vec![(AggFn::Count, false)], false, "none"), "mem1");
+    // F4  composite key, all components NULL
+    push("C21-F4", table(ColTy::I64, ColTy::I64, ColTy::I64,
+        vec![vec![i(0), nl(), nl(), i(1), i(1)], vec![i(1), i(5), i(1), i(3), i(1)], vec![i(2), nl(), nl(), i(2), i(1)], vec![i(3), i(6), i(2), i(2), i(1)], vec![i(4), nl(), nl(), i(2), i(1)], vec![i(5), nl(), i(2), i(2), i(1)]], vec![6]),
+        sh(2, vec![(AggFn::CountStar, false)], false, "none"), "mem1");
+    // F5  dense-direct refuses NULL keys
+    push("C21-F5", table(ColTy::I64, ColTy::I64, ColTy::I64, vec![vec![i(0), nl(), i(1), i(1), i(1)], vec![i(1), i(5), i(1), i(3), i(1)]], vec![2]), sh(1, vec![(AggFn::CountStar, false)], false, "none"), "pq1x16");
+    // F6  dense-direct SUM over an all-NULL group is 0
+    push("C21-F6", table(ColTy::I64, ColTy::I64, ColTy::F64, vec![vec![i(0), i(4), i(1), nl(), i(1)], vec![i(1), i(5), i(1), Val::f(1.5), i(1)]], vec![2]), sh(1, vec![(AggFn::Sum, false)], false, "none"), "pq1x16");
+    // F10 dense-direct: SUM over BIGINT named with a qualified column fails "expected Float64"
+    push("C21-F10", table(ColTy::I64, ColTy::I64, ColTy::I64, vec![vec![i(0), i(4), i(1), i(2), i(1)], vec![i(1), i(5), i(1), i(3), i(1)]], vec![2]), sh(1, vec![(AggFn::Sum, false)], false, "none"), "pq1x16");
+    // F7  MIN over INTEGER is not implemented on the in-memory hash aggregate
+    push("C21-F7", table(ColTy::I64, ColTy::I64, ColTy::I32, vec![vec![i(0), i(4), i(1), i(2), i(1)], vec![i(1), i(5), i(1), i(3), i(1)]], vec![1, 1]), sh(0, vec![(AggFn::Min, false), (AggFn::CountStar, false)], false, "none"), "memb");
+    // F8  NULL key merged with key -1
+    push("C21-F8", table(ColTy::I64, ColTy::I64, ColTy::I64, vec![vec![i(0), nl(), i(1), i(1), i(1)], vec![i(1), i(-1), i(1), i(3), i(1)], vec![i(2), i(2), i(1), i(3), i(1)]], vec![3]), sh(1, vec![(AggFn::CountStar, false)], false, "none"), "mem1");
+    // F9  scalar path: MIN over no valid value is i64::MAX
+    push("C21-F9", table(ColTy::I64, ColTy::I64, ColTy::I64, vec![vec![i(0), i(4), i(1), nl(), i(1)], vec![i(1), i(5), i(1), nl(), i(1)]], vec![2]), sh(0, vec![(AggFn::Min, false)], false, "none"), "mem1");
+    out
+}
+
 pub fn main(o: &Opts) {
     if let Some(p) = &o.replay {
         for c in replay_cases(p) { let i = run_both(&c); emit(c, i); }
         return;
     }
+    if o.get_usize("witness", 0) == 1 { for (c, i) in witness_cases() { emit(c, i); } return; }
     if let Some(sql) = o.get("probe") {
         // `--opt probe="SELECT … FROM t0"`: one generated table, the statement under every configuration, with plan operators
         let mut r = Rng::new(o.seed ^ 0xC21);
